@@ -60,6 +60,10 @@ pub struct Program {
     /// conflict strategy of the working database (none or newer)
     #[serde(default = "default_strategy")]
     pub strategy: String,
+    /// a quarter of the writes on the links between the nodes arrive as two TCP segments (the byte stream is cut
+    /// anywhere; the second part follows up to 2 ms later)
+    #[serde(default)]
+    pub segments: bool,
 }
 
 fn default_strategy() -> String {
@@ -128,7 +132,8 @@ fn gen(rng: &mut Rng, concurrent: bool) -> Program {
     }
     let latency_us = if rng.chance(1, 2) { (0, 0) } else { (rng.range(50, 500), rng.range(500, 20_000)) };
     let strategy = if rng.chance(1, 3) { "newer" } else { "none" }.to_string();
-    Program { nodes, ops, settle_each, concurrent_on_primary: conc, latency_us, strategy }
+    let segments = rng.chance(1, 3);
+    Program { nodes, ops, settle_each, concurrent_on_primary: conc, latency_us, strategy, segments }
 }
 
 pub type NodeDump = BTreeMap<String, (String, BTreeMap<String, Entry>)>;
@@ -216,6 +221,10 @@ fn execute(prog: Program) -> Outcome {
         k.net.latency = ((prog.latency_us.0 * 1000).max(50_000), (prog.latency_us.1 * 1000).max(50_000));
         if prog.latency_us.1 > 0 {
             k.fault("link_latency");
+        }
+        if prog.segments {
+            k.net.segment_p = 64;
+            k.net.segment_scope = 1;
         }
     });
     let primary = match w.form_cluster(1_300, 15_000) {
